@@ -53,7 +53,17 @@ func (h *hooked) Check(ent Entry, ce *CheckedEntry) *CheckedEntry {
 	// Let the wrapped Core decide whether to log this message or not. This
 	// also gives the downstream a chance to register itself directly with the
 	// CheckedEntry.
+	// ce may already carry cores that accepted the entry earlier (for example
+	// other branches of a tee), so a non-nil result alone doesn't mean that the
+	// wrapped Core accepted it: only fire the hooks if it added itself.
+	before := 0
+	if ce != nil {
+		before = len(ce.cores)
+	}
 	if downstream := h.Core.Check(ent, ce); downstream != nil {
+		if len(downstream.cores) == before {
+			return downstream
+		}
 		return downstream.AddCore(ent, h)
 	}
 	return ce
